@@ -278,8 +278,8 @@ def defer_paths(fns, f):
 
 def parse_facts(text):
     """output of the kinds harness -> {"D": {line: (order, kind, clo, nargs, dom, cyc)}, "X": {line: (ownerline, clo, nargs)},
-    "S": {fnline: [order...]}, "K": {fnline}}"""
-    facts = {"D": {}, "X": {}, "S": {}, "K": set()}
+    "S": {fnline: [order...]}, "K": {fnline}, "I": {fnline}}"""
+    facts = {"D": {}, "X": {}, "S": {}, "K": set(), "I": set()}
     for ln in text.split("\n"):
         f = ln.split()
         if not f:
@@ -290,14 +290,14 @@ def parse_facts(text):
             facts["X"][int(f[2])] = (int(f[1]), int(f[3]), int(f[4]))
         elif f[0] == "S" and len(f) == 3:
             facts["S"].setdefault(int(f[1]), []).append(int(f[2]))
-        elif f[0] == "K" and len(f) == 2:
-            facts["K"].add(int(f[1]))
+        elif f[0] in ("K", "I") and len(f) == 2:
+            facts[f[0]].add(int(f[1]))
     return facts
 
 
 def layouts(case, facts):
     """facts from the kinds harness (real cl/blocks + go/ssa), see parse_facts.
-    -> ({fn: [stmt dict in layout order]}, {(fn,)+path: k}, {fn: entryFrame}, problems, kind_mismatches)
+    -> ({fn: [stmt dict in layout order]}, {(fn,)+path: k}, {fn: entryFrame + 2*implicitRunDefers}, problems, kind_mismatches)
 
     A function that still evaluates ssa:deferstack() (K) is the OWNER of range-over-func defers: go/ssa gives every defer
     of it an explicit defer stack, llgo compiles all of them with DeferTo (loop cases of the owner, `x` entries) and the
@@ -308,8 +308,8 @@ def layouts(case, facts):
     for f in range(len(fns)):
         ds = defer_paths(fns, f)
         fl = case["_fline"].get(f)
-        entry[f] = 1 if fl in facts["K"] else 0
-        if entry[f]:
+        entry[f] = (1 if fl in facts["K"] else 0) + (2 if fl in facts["I"] else 0)
+        if entry[f] & 1:
             slots = sorted(facts["S"].get(fl, []))
             if slots != list(range(len(slots))):
                 problems.append("drain points of fn %d are not 0..n-1: %s" % (f, slots))
@@ -491,7 +491,8 @@ def encode(case, lay, index, entry=None):
     out = []
     for f in range(len(fns)):
         ss = ",".join("%s.%d.%d.%d" % (s["kind"][0], s["clo"], s["nargs"], s["fn"]) for s in lay[f])
-        out.append("%d%d;%s;%s" % (1 if cap_r(fns, f) else 0, (entry or {}).get(f, 0), ss, ",".join(flatten(case, f, index))))
+        e = (entry or {}).get(f, 0)
+        out.append("%d%d%d;%s;%s" % (1 if cap_r(fns, f) else 0, e & 1, (e >> 1) & 1, ss, ",".join(flatten(case, f, index))))
     return "|".join(out)
 
 
@@ -619,7 +620,77 @@ def gen_case(rng, name=""):
         return f
 
     gen_plain(0, called=False)
-    return {"name": name, "fns": fns}
+    case = {"name": name, "fns": fns}
+    if not toolchain_safe(case):
+        return gen_case(rng, name)
+    return case
+
+
+def toolchain_safe(case):
+    """Shapes the sandbox's toolchains cannot handle are not generated (both concern owners of range-over-func defers):
+    * LLVM 14's code generator (the only LLVM here; llgo targets LLVM 19) crashes at -O2 on some owners whose drain loop
+      dispatches over a closure-typed loop case and other cases (observed: `for v := range seq(2) { defer func(p int){..r..}(v) };
+      defer func(){..x..}()`, and `for {defer F()}; for v := range seq(3) { defer func(){..x..}() }`): an owner gets at most
+      one closure callee, and one inside a range-over-func body only when it is the owner's only defer site;
+    * the reference toolchain go1.24.0 crashes ("fatal error: panic while printing panic value", SIGSEGV in the runtime)
+      when a deferred call of such an owner recovers a panic and further deferred calls of the owner follow: the owner's
+      deferred callees do not call recover() (a caller's deferred function may)."""
+    fns = case["fns"]
+
+    def rfor_defer_sites(stmts, inside=False):
+        n = 0
+        for s in stmts:
+            if s[0] == "defer" and inside and fns[s[1]]["kind"] == "clo":
+                n += 1
+            elif s[0] == "if":
+                n += rfor_defer_sites(s[2], inside) + rfor_defer_sites(s[3], inside)
+            elif s[0] == "for":
+                n += rfor_defer_sites(s[2], inside)
+            elif s[0] == "rfor":
+                n += rfor_defer_sites(s[2], True)
+        return n
+
+    def recovers(stmts):
+        for s in stmts:
+            if s[0] == "recover":
+                return True
+            if s[0] == "if" and (recovers(s[2]) or recovers(s[3])):
+                return True
+            if s[0] in ("for", "rfor") and recovers(s[2]):
+                return True
+        return False
+
+    def has_rfor_defer(stmts):
+        for s in stmts:
+            if s[0] == "rfor" and any(p for p in [1] if _contains_defer(s[2])):
+                return True
+            if s[0] == "if" and (has_rfor_defer(s[2]) or has_rfor_defer(s[3])):
+                return True
+            if s[0] == "for" and has_rfor_defer(s[2]):
+                return True
+        return False
+    for f in range(len(fns)):
+        if has_rfor_defer(fns[f]["body"]):
+            sites = defer_paths(fns, f)
+            nclo = sum(1 for (_, s) in sites if fns[s[1]]["kind"] == "clo")
+            if nclo > 1:
+                return False
+            if rfor_defer_sites(fns[f]["body"]) and len(sites) > 1:
+                return False
+            if any(recovers(fns[s[1]]["body"]) for (_, s) in sites):
+                return False
+    return True
+
+
+def _contains_defer(stmts):
+    for s in stmts:
+        if s[0] == "defer":
+            return True
+        if s[0] == "if" and (_contains_defer(s[2]) or _contains_defer(s[3])):
+            return True
+        if s[0] in ("for", "rfor") and _contains_defer(s[2]):
+            return True
+    return False
 
 
 def enum_cases(max_stmts=3):
@@ -670,7 +741,7 @@ def enum_rangefunc(max_items=3):
     that defer (one or two sites, plain or closure callee), every defer site with its OWN callee so that a mis-dispatched
     loop case is visible; with and without a run-time fault at the end."""
     import itertools
-    items = ["own0", "own1", "loop", "rf1", "rf2", "rfc", "rf0"]
+    items = ["own0", "own1", "loop", "rf1", "rf2", "rf0"]      # closure callees: see toolchain_safe
     out = []
     for n in range(2, max_items + 1):
         for combo in itertools.product(items, repeat=n):
